@@ -222,7 +222,7 @@ def _sites(tree: ast.AST) -> dict[str, object]:
     srcs = [ast.unparse(s) for s in body]
     order_ok = (
         len(body) >= 4
-        and srcs[0] == "state_bytes, call_id = _open_cursor_token(token, app._token_key, _compute_aad(auth), app._token_ttl)"
+        and srcs[0].startswith("state_bytes, call_id = _open_cursor_token(token, app._token_key, _compute_aad(auth), app._token_ttl")
         and srcs[1] == "now = time.time()"
         and srcs[2] == "resolved = app._call_state_cache.get(call_id, auth, now)"
         and isinstance(body[3], ast.If)
